@@ -54,17 +54,17 @@ type Config struct {
 
 // World holds the immutable description of a network: keys and genesis.
 type World struct {
-	Cfg     Config
-	Dir     string
-	Vals    []ValKey
-	Members []*Member
-	BtcKey  *relayertypes.PublicKey
-	BtcPriv []byte // secret of the relayer bitcoin key (same scalar for both key types)
-	GenState []byte
+	Cfg        Config
+	Dir        string
+	Vals       []ValKey
+	Members    []*Member
+	BtcKey     *relayertypes.PublicKey
+	BtcPriv    []byte // secret of the relayer bitcoin key (same scalar for both key types)
+	GenState   []byte
 	ConsParams cmtproto.ConsensusParams
-	GenVals []*cmttypes.Validator
-	EL      *ELBackend
-	AccNum  map[string]uint64 // bech32 -> account number
+	GenVals    []*cmttypes.Validator
+	EL         *ELBackend
+	AccNum     map[string]uint64 // bech32 -> account number
 
 	cdc      codec.Codec
 	txConfig client.TxConfig
